@@ -77,10 +77,12 @@ def extra_coverage(pid, tier, meta):
 
 def regenerate(pid, root, repo, goenv, scratch):
     """T2: regenerate coq/Gen/*.v from the current source (no-op for properties without a translator)."""
-    gen = get(pid).get("gen")
-    if not gen:
+    # Gen/ is regenerated on every run of every check, so that it always reflects the tree the
+    # run sees; only the properties that state obligations over it are affected by the outcome.
+    ok, log_ = gen_skel(root, repo, goenv, scratch)
+    if not get(pid).get("gen"):
         return True, ""
-    return gen(root, repo, goenv, scratch)
+    return ok, log_
 
 
 def is_obligation_failure(pid, text):
